@@ -113,6 +113,12 @@ def is_path_ignored(
             _LOGGER.info("ignoring '%s' because it is a submodule", path)
             return True
 
+    else:
+        # Neither a regular file nor a directory (a FIFO, socket or device
+        # file, or something that vanished): not a Covered File.
+        _LOGGER.debug("skipping special file '%s'", path)
+        return True
+
     if vcs_strategy and vcs_strategy.is_ignored(path):
         return True
 
